@@ -89,8 +89,17 @@ def instants(draw, leap_days, lo_mjd=LO_MJD, hi_mjd=HI_MJD, boundary_bias=True):
     elif kind < 19:
         day = EQUINOX_SWITCH_MJD if lo_mjd < EQUINOX_SWITCH_MJD < hi_mjd else lo_mjd + 1
         us = (day - iers.BASE_MJD) * US_DAY + draw(mixed_int(-90 * US, 90 * US, 4))
-    else:
+    elif draw(st.booleans()):
         us = draw(uniform_int(lo // (3600 * US), hi // (3600 * US))) * 3600 * US
+    else:
+        # the turn of a year (31 December, day 366 of leap years, 1 January); those that carry a leap
+        # second are pushed out of its window like every other instant
+        year = draw(st.integers(1974, 2016))
+        day = (_dt.date(year, 1, 1) - _dt.date(1858, 11, 17)).days
+        if lo_mjd + 1 < day < hi_mjd - 1:
+            us = (day - iers.BASE_MJD) * US_DAY + draw(mixed_int(-90 * US, 90 * US, 4))
+        else:
+            us = draw(uniform_int(lo, hi))
     return push_out_of_leap_windows(us, leap_days)
 
 
